@@ -1,7 +1,7 @@
 #!/bin/bash
 # seed_detect.sh <seed dir with patch.diff> <property> [extra check.py args]
 # applies the seeded change to /repo, runs the property's check, ALWAYS reverts.
-d=$1; prop=$2; shift 2
+d=$(realpath $1); prop=$2; shift 2
 cd /verif
 git -C /repo diff --quiet || { echo "/repo is dirty, refusing"; exit 9; }
 git -C /repo apply $d/patch.diff || { echo "patch does not apply"; exit 9; }
